@@ -133,6 +133,18 @@ def main():
             if er.get("undecided"):
                 undecided.append("%s: %s" % (name, er["undecided"]))
 
+    # bounded end-to-end families (contracts/e2e.py): a stand-in when a change has moved a function outside the verifier's reach (UNDECIDED) and
+    # a search for a concrete failing input when an obligation failed (Verus gives no counterexample); always run in the thorough tier
+    if spec.get("fallback") and (tier == "thorough" or undecided or violations) and not os.environ.get("VERIF_NO_E2E"):
+        for name, fn in spec["fallback"]:
+            er = fn(tier, seed)
+            er["why_run"] = "thorough tier" if tier == "thorough" else ("the Verus side is undecided" if undecided else "search for a failing input for the failed obligation(s)")
+            extra[name] = er
+            for v in er.get("violations", []):
+                extra_viol.append(v)
+            if er.get("undecided"):
+                undecided.append("%s: %s" % (name, er["undecided"]))
+
     # ---- thorough tier: stability at half the resource limit, and the sensitivity suite for this property ----------------------
     thorough = {}
     if tier == "thorough" and not args.no_evidence:
@@ -312,6 +324,9 @@ def main():
     if undecided:
         for uu in undecided:
             print("UNDECIDED property=%s %s" % (pid, uu))
+        for name, er in extra.items():
+            if er.get("why_run") and "evaluations" in er:
+                print("bounded run %s: no violation of %s in %d scenarios (does not decide the property)" % (name, pid, er["evaluations"]))
         sys.exit(2)
     print("OK property=%s obligations=%d discharged=%d units=%s wall=%.1fs" % (pid, obligations, discharged, ",".join(units), time.time() - t0))
     sys.exit(0)
